@@ -34,6 +34,9 @@ HQuad == <<Mono(1, <<1, 0, 0, 0, 1, 0>>), Mono(2, <<0, 1, 0, 0, 0, 1>>), Mono(-1
 HCub == HQuad \o <<Mono(1, <<1, 1, 0, 0, 0, 1>>), Mono(-1, <<0, 0, 1, 2, 0, 0>>), Mono(1, <<0, 2, 0, 0, 1, 0>>)>>
 HQuart == HCub \o <<Mono(1, <<2, 0, 0, 2, 0, 0>>), Mono(1, <<0, 1, 0, 0, 0, 3>>), Mono(-1, <<1, 0, 2, 0, 1, 0>>),
                     Mono(2, <<0, 0, 0, 1, 1, 1>>), Mono(1, <<0, 4, 0, 0, 0, 0>>)>>
+\* degree 6 (the largest degree the property quantifies over)
+HSix == HQuart \o <<Mono(1, <<3, 0, 0, 0, 3, 0>>), Mono(-1, <<0, 0, 6, 0, 0, 0>>), Mono(1, <<1, 1, 1, 1, 1, 1>>),
+                    Mono(1, <<0, 2, 0, 3, 0, 0>>)>>
 HSep == <<Mono(1, <<0, 0, 0, 2, 0, 0>>), Mono(1, <<0, 0, 0, 0, 2, 0>>), Mono(2, <<0, 0, 0, 0, 0, 2>>),
           Mono(1, <<2, 0, 0, 0, 0, 0>>), Mono(-1, <<1, 1, 0, 0, 0, 0>>), Mono(1, <<0, 0, 3, 0, 0, 0>>)>>
 \* sparse cubic for full steps (keeps the exact images inside 32 bits)
@@ -76,7 +79,7 @@ QuickInstances ==
     \cup Steps({HQuad}, {Z1}, {<<1, 2>>}, Rots)
     \cup Runs({HQuad, HQuad2}, {Y1}, RunPlans)
 ThoroughInstances ==
-    QuickInstances \cup SubA({HQuad, HCub, HQuart, HSep}, {Z1, Z2, Z3}, Ds) \cup SubC({Z1, Z2, Z3})
+    QuickInstances \cup SubA({HQuad, HCub, HQuart, HSix, HSep}, {Z1, Z2, Z3}, Ds) \cup SubC({Z1, Z2, Z3})
     \cup Steps({HStep, HSep}, {Z3, Y1 \o Y2}, {<<1, 1>>, <<-1, 1>>}, Quarter)
     \cup Steps({HQuad, HQuad2}, {Z1, Z3, Y1 \o Y2}, {<<1, 1>>, <<-1, 1>>, <<1, 2>>}, Rots)
     \cup Runs({HQuad, HQuad2}, {Y1, Y2}, RunPlans)
